@@ -695,9 +695,18 @@ func main() {
 			}
 		}
 	}
+	// directed scenarios: stored messages replayed to a first, a repeated and a re-made subscription
+	for v := 0; v < 3; v++ {
+		sc := []scriptStep{{ci: 0}, {ci: 1}, {ci: 1, x: 50, topic: "a/b/?ttl=600"}, {ci: 1, x: 50, topic: "a/b/?ttl=700"}, {ci: 1, x: 50, topic: "a/b/c/?ttl=600"},
+			{ci: 0, x: 0, topic: "a/b/?last=2"}, {ci: 0, x: 0, topic: "a/b/?last=2"}, {ci: 0, x: 0, topic: "a/b/?last=5"},
+			{ci: 0, x: 30, topic: "a/b/"}, {ci: 0, x: 0, topic: "a/b/?last=1"}, {ci: 0, x: 0, topic: "a/b/"}, {ci: 0, x: 0, topic: "a/b/?last=0"},
+			{ci: 1, x: 0, topic: "a/b/?last=3"}}
+		t, h := history(lics[v%3], v == 2, 2, 0, sc)
+		sh.Add(t, h, "scenario/replay-on-repeated-subscription", true)
+	}
 	for _, n := range []int{150, 260} {
 		t, h := burst(lics[n%3], n)
 		sh.Add(t, h, "scenario/presence-burst", true)
 	}
-	sh.Finish("sessions of 2-4 clients (connect with/without username and last will, subscribe, unsubscribe, publish with retain / ttl / me=0 / links, link and presence requests, ping, four ways of ending incl. a packet on which the decoder panics, reconnects; directed scenarios for filters whose bookkeeping keys collide; presence watcher that stops reading during a burst of 150 / 260 subscriptions) over channels a/ a/b/ b/a/ a/a/ b/b/ a/b/c/ b/ x/x/y/ y/ with wildcards and options, nine keys (targets #/ a/#/ a/b/ b/#/, masks incl. read-only, write-only, extendable, expired, no-load), emitter and mqtt matcher; every request acknowledged before the next; presence notifications flushed by a FIFO barrier; non-trivial: all")
+	sh.Finish("sessions of 2-4 clients (connect with/without username and last will, subscribe, unsubscribe, publish with retain / ttl / me=0 / links, link and presence requests, ping, four ways of ending incl. a packet on which the decoder panics, reconnects; directed scenarios for filters whose bookkeeping keys collide; stored messages replayed to first, repeated and re-made subscriptions; presence watcher that stops reading during a burst of 150 / 260 subscriptions) over channels a/ a/b/ b/a/ a/a/ b/b/ a/b/c/ b/ x/x/y/ y/ with wildcards and options, nine keys (targets #/ a/#/ a/b/ b/#/, masks incl. read-only, write-only, extendable, expired, no-load), emitter and mqtt matcher; every request acknowledged before the next; presence notifications flushed by a FIFO barrier; non-trivial: all")
 }
